@@ -465,11 +465,24 @@ func (w *pworld) summary() (st string, dbs string) {
 	}
 	var ds []string
 	for k, id := range w.ids {
-		b, err := w.db.GetSignedVAABytes(id)
-		if err == nil {
-			ds = append(ds, k+"="+hex.EncodeToString(b))
-		} else if err != db.ErrVAANotFound {
+		// the store as it is (raw badger read) ...
+		raw, found, rerr := w.db.VerifRawGet(id.Bytes())
+		if rerr != nil {
 			ds = append(ds, k+"=ERR")
+		} else if found {
+			ds = append(ds, k+"="+hex.EncodeToString(raw))
+		}
+		// ... and as the node's own lookup serves it: a stored VAA must come back, byte for byte (X: entries are reported
+		// by the driver as stored-vaa-not-served)
+		b, err := w.db.GetSignedVAABytes(id)
+		switch {
+		case rerr != nil:
+		case found && err != nil:
+			ds = append(ds, "X:"+k+"=lookup-failed")
+		case found && hex.EncodeToString(b) != hex.EncodeToString(raw):
+			ds = append(ds, "X:"+k+"=lookup-returned-other-bytes")
+		case !found && err == nil:
+			ds = append(ds, "X:"+k+"=lookup-returned-absent-entry")
 		}
 	}
 	sort.Strings(ds)
@@ -971,7 +984,11 @@ func (w *pworld) scenario(id string, thorough bool) {
 			m := msgs[r.Intn(len(msgs))]
 			k := curSet[r.Intn(len(curSet))]
 			o := w.obsFor(k, m.digest)
-			switch r.Intn(14) {
+			switch r.Intn(16) {
+			case 14, 15:
+				// the same signature with an Ethereum-style recovery id (27 / 28, or the EIP-155 35 / 36): not what the VAA format
+				// carries; VerifySignatures and both contracts' callers expect 0 / 1 here
+				o.Signature[64] += []byte{27, 35}[r.Intn(2)]
 			case 11:
 				o.Signature = o.Signature[:[]int{0, 1, 32, 63}[r.Intn(4)]] // short / empty signature (possibly from a guardian who already signed)
 			case 12:
